@@ -82,6 +82,30 @@ def dispatch {α : Type} (t : Table) (cls : String) (args : α) : Outcome α :=
   | some h => .called h args
   | none => .raised .dispatchError
 
+/-- what the invoked handler itself does: it returns, or it raises an exception (named by its
+    class; the handler may raise anything, `KeyError` and `DispatchError` included) -/
+inductive Beh where
+  | returns
+  | raises (exc : String)
+  deriving DecidableEq, Repr
+
+/-- what the caller of `dispatch` observes -/
+inductive Result (α : Type) where
+  | returned (h : Handler) (args : α)
+  | handlerRaised (h : Handler) (args : α) (exc : String)
+  | dispatchError
+  deriving Repr
+
+/-- `dispatch` with the handler's own behaviour: the call of the handler is the last thing
+    `dispatch` does, so whatever the handler does is what the caller sees -/
+def dispatchWith {α : Type} (t : Table) (cls : String) (args : α) (beh : Handler → Beh) : Result α :=
+  match dispatch t cls args with
+  | .called h a =>
+    match beh h with
+    | .returns => .returned h a
+    | .raises e => .handlerRaised h a e
+  | .raised _ => .dispatchError
+
 /-! ### operation-level state machine (used by the driver and by history theorems) -/
 
 inductive Op where
